@@ -768,6 +768,35 @@ func checkInheritance(c *Ctx, r *Report) {
 	// what decides which checks a route gets: the security resolution consults what it was reviewed to consult
 	// ... and where a controller's / receiver's annotations are read from
 	ruleDecisionInputsOf(c, r, "C03.d", "gast.GetCommentsFromTypeSpec", "gast.GetCommentsFromNode", "gast.MapDocListToCommentBlock", "(*core/visitors.ControllerVisitor).createControllerMetadata", "(*core/visitors.RouteVisitor).getExecutionContext")
+	// ... for every route: hidden routes are served like the others, so their gate is the same
+	if fi := need(c, r, "C03.d", rred); fi != nil {
+		viol := ""
+		var sites []string
+		n := 0
+		secF := fieldOf(routeMeta, "Security")
+		allInstrs(fi.SSA, true, func(_ *ssa.Function, _ *ssa.BasicBlock, _ int, ins ssa.Instruction) {
+			st, ok := ins.(*ssa.Store)
+			if !ok {
+				return
+			}
+			fa, ok := st.Addr.(*ssa.FieldAddr)
+			if !ok || secF == nil || structFieldVar(fa.X.Type(), fa.Field) != secF {
+				return
+			}
+			n++
+			sites = append(sites, w.pos(st.Pos()))
+			for _, f := range dominatingFacts(st.Block()) {
+				a := sliceOf(f.Cond)
+				if a.hasFieldNamed("Hiding") || a.hasFieldNamed("Type") && a.Calls["core/metadata.GetMethodHideOpts"] || a.Calls["core/metadata.GetMethodHideOpts"] || a.Calls["generator/swagen/swagtool.IsHiddenAsset"] {
+					viol = fmt.Sprintf("%s: RouteMetadata.Security is filled in only on a path that looked at the route's @Hidden state: a hidden route is still registered and served, and would be served without its checks", w.pos(st.Pos()))
+				}
+			}
+		})
+		if n == 0 {
+			viol = "no store to RouteMetadata.Security found in ReceiverMeta.Reduce"
+		}
+		r.add("C03.d", "guardedby", rred+":security-regardless-of-hiding", "the effective security is attached to every route, hidden or not", []string{rred}, sites, viol)
+	}
 	ruleDecisionInputsOf(c, r, "C03.d", "core/metadata.GetDefaultSecurity", "core/metadata.GetSecurityFromContext", "core/metadata.GetRouteSecurityWithInheritance", "(core/metadata.ControllerMeta).Reduce", "(core/metadata.ReceiverMeta).Reduce")
 	// GetDefaultSecurity yields the configured component
 	if fi := need(c, r, "C03.d", "core/metadata.GetDefaultSecurity"); fi != nil {
